@@ -46,6 +46,10 @@ type Case struct {
 	// Map), "union" (union with an empty set), "json" (loaded from its own ToJSON)
 	AVia string `json:"avia,omitempty"`
 	BVia string `json:"bvia,omitempty"`
+	// Default: the TreeSets are made by treeset.New (the default constructor, natural
+	// order) rather than NewWith — sets derived from them by the library itself
+	// (Select, Map, Union, a reload) must still count as having the same comparator
+	Default bool `json:"default,omitempty"`
 }
 
 // derive returns a set with the same members (and comparator) obtained another way.
@@ -317,6 +321,11 @@ func check(c Case) (pbt.Info, error) {
 		info, err = run(c, func() *linkedhashset.Set[int] { return linkedhashset.New[int]() }, false)
 	case "treeset":
 		f := dom.Cmp(c.Cmp) // one shared function value for both operands
+		if c.Default {
+			info, err = run(c, func() *treeset.Set[int] { return treeset.New[int]() }, true)
+			info.Label("treeset.New")
+			break
+		}
 		info, err = run(c, func() *treeset.Set[int] { return treeset.NewWith(f) }, true)
 	default:
 		return info, fmt.Errorf("bad kind %q", c.Kind)
@@ -386,6 +395,9 @@ func gen(kind string) func(t *rapid.T) Case {
 		c := Case{Kind: kind}
 		if kind == "treeset" {
 			c.Cmp = dom.AllCmps[rapid.IntRange(0, len(dom.AllCmps)-1).Draw(t, "cmp")]
+			if rapid.IntRange(0, 5).Draw(t, "default-ctor") == 3 {
+				c.Cmp, c.Default = "", true
+			}
 		}
 		hi, maxA, maxB := 9, 8, 8
 		if rapid.IntRange(0, 9).Draw(t, "large") == 0 {
